@@ -1,0 +1,167 @@
+//go:build verif
+
+// Contracts for property C10 (a completed snapshot or export is the image of exactly one position).
+// Checked by govc. Comment-only file.
+//
+// What is checked here is the SEQUENTIAL lock-bracketing and data-flow half of C10: which locks are held at which
+// program point of DB.WriteSnapshotTo / DB.Export, which values flow into the LTX header/trailer, which bytes are read
+// from where. That these brackets exclude every interleaving of SQLite writers and checkpointers is C12's exclusion
+// lemma plus the SQLite locking protocol; the engine has no schedules.
+package litefs
+
+// ===========================================================================
+// db.go — WriteSnapshotTo (C10)
+//
+// Lock automaton `lk` (advanced only when the blocking operation returned nil):
+//   0 --RLock PENDING--> 1 --RLock SHARED--> 2 --Unlock PENDING--> 3 --[WAL mode: Lock WRITE (exclusive)--> 4]
+//   --sample Pos, pageSize, PageN, copy of the WAL page index--> --Unlock WRITE--> 5
+//   --RLock CKPT--> 6 --RLock RECOVER--> 7 --RLock READ0--> 8 --READ1--> 9 --READ2--> 10 --READ3--> 11 --READ4--> 12
+//   --Unlock CKPT--> 13 --Unlock RECOVER--> 14 --(open files, encode header, read + encode pages, trailer)
+// Encoder automaton `st`: 0 --NewEncoder(dst)--> 1 --EncodeHeader ok--> 2 --SetPostApplyChecksum--> 3 --Close ok--> 4.
+
+// State-level view of the guards WriteSnapshotTo holds while it reads the files: SHARED and READ0..4 shared,
+// everything it took on the way (PENDING, WRITE, CKPT, RECOVER) released again.
+//@ pred snapReadLocks(gs *GuardSet) = gsh(addr(gs.shared)) &&
+//@      gsh(addr(gs.read0)) && gsh(addr(gs.read1)) && gsh(addr(gs.read2)) && gsh(addr(gs.read3)) && gsh(addr(gs.read4)) &&
+//@      gun(addr(gs.pending)) && gun(addr(gs.write)) && gun(addr(gs.ckpt)) && gun(addr(gs.recover)) && gun(addr(gs.reserved)) && gun(addr(gs.dms))
+
+// The locks under which the position, the page count and the WAL page index are sampled: SHARED shared, PENDING already
+// released, and in WAL mode the WAL write lock exclusive (no writer can append / commit, LiteFS cannot move the position).
+//@ pred snapSampleLocks(gs *GuardSet, db *DB) = gsh(addr(gs.shared)) && gun(addr(gs.pending)) &&
+//@      (dbModeIs(db, DBModeWAL) ? gs.write.state == RWMutexStateExclusive : gun(addr(gs.write)))
+
+// every guard of the set is released
+//@ pred snapAllReleased(gs *GuardSet) = gun(addr(gs.pending)) && gun(addr(gs.shared)) && gun(addr(gs.reserved)) && gun(addr(gs.write)) &&
+//@      gun(addr(gs.ckpt)) && gun(addr(gs.recover)) && gun(addr(gs.read0)) && gun(addr(gs.read1)) && gun(addr(gs.read2)) &&
+//@      gun(addr(gs.read3)) && gun(addr(gs.read4)) && gun(addr(gs.dms))
+
+// the local copy of the WAL page index holds only entries of the database's index, with the same frame offsets
+//@ pred subIndex(m map[uint32]int64, db *DB) = forall p uint32 :: has(m, p) ==> has(db.wal.frameOffsets, p) && m[p] == db.wal.frameOffsets[p]
+
+// number of pages 1..next-1 that are not the lock page
+//@ spec func encodedBelow(next uint32, lock uint32) int = int(next) - 1 - (lock < next ? 1 : 0)
+
+//@ func (db *DB) WriteSnapshotTo [C10]
+//@   requires  dbWF(db) && ctx != nil && dst != nil
+//@   requires  locksWF(db)
+//@   thorough  call/litefs.GuardSet.Unlock/pre
+//@   thorough  call/litefs.RWMutexGuard.RLock/pre
+//@   thorough  call/litefs.RWMutexGuard.Lock/pre
+//@   thorough  call/litefs.RWMutexGuard.Unlock/pre
+//@   ghost lk int = 0
+//@   ghost st int = 0
+//@   ghost sPos bool = false
+//@   ghost sN bool = false
+//@   ghost sTXID ltx.TXID = 0
+//@   ghost sChk ltx.Checksum = 0
+//@   ghost sPageN uint32 = 0
+//@   ghost sought bool = false
+//@   ghost fromWal bool = false
+//@   ghost readok bool = false
+//@   ghost encoded int = 0
+//@   ghost acc ltx.Checksum = 0
+//@   ghost unlocked bool = false
+// --- lock choreography
+//@   on call RWMutexGuard.RLock assert (lk == 0 && arg0 == addr(gs.pending)) || (lk == 1 && arg0 == addr(gs.shared)) ||
+//@        (lk == 5 && arg0 == addr(gs.ckpt)) || (lk == 6 && arg0 == addr(gs.recover)) || (lk == 7 && arg0 == addr(gs.read0)) ||
+//@        (lk == 8 && arg0 == addr(gs.read1)) || (lk == 9 && arg0 == addr(gs.read2)) || (lk == 10 && arg0 == addr(gs.read3)) ||
+//@        (lk == 11 && arg0 == addr(gs.read4)) ; then lk = (ret0 == nil ? lk + 1 : lk)
+//@   on call RWMutexGuard.Lock assert lk == 3 && arg0 == addr(gs.write) && dbModeIs(db, DBModeWAL) && !sPos ; then lk = (ret0 == nil ? 4 : lk)
+//@   on call RWMutexGuard.Unlock assert (lk == 2 && arg0 == addr(gs.pending)) || ((lk == 3 || lk == 4) && arg0 == addr(gs.write)) ||
+//@        (lk == 12 && arg0 == addr(gs.ckpt)) || (lk == 13 && arg0 == addr(gs.recover)) ; then lk = (lk == 3 || lk == 4 ? 5 : lk + 1)
+// the WAL write lock is released only after position and page count were sampled (the index copy: loop 1 invariant), still under the sampling locks
+//@   on call RWMutexGuard.Unlock assert arg0 == addr(gs.write) ==> sPos && sN && snapSampleLocks(gs, db) && (dbModeIs(db, DBModeWAL) <==> lk == 4)
+// OBSERVATION O-C10-2 (proved, not a failure): as in Export (finding F-C10-1 below) WRITE is released before CKPT/RECOVER/READ0..4
+// are requested; at that moment this guard set holds SHARED only. A commit + checkpoint / replica apply in that window makes the
+// pages read later differ from the sampled position; here the checksum self-check turns that into an error return
+// ("snapshot checksum mismatch"), not into a wrong snapshot.
+//@   on call RWMutexGuard.Unlock assert arg0 == addr(gs.write) ==> gun(addr(gs.ckpt)) && gun(addr(gs.recover)) && gun(addr(gs.read0)) &&
+//@        gun(addr(gs.read1)) && gun(addr(gs.read2)) && gun(addr(gs.read3)) && gun(addr(gs.read4)) && gsh(addr(gs.shared))
+//@   on call GuardSet.Unlock assert arg0 == gs && !unlocked ; then unlocked = true
+// --- sampling
+//@   on call DB.Pos assert !sPos && !sN && arg0 == db && snapSampleLocks(gs, db) && (dbModeIs(db, DBModeWAL) ? lk == 4 : lk == 3) ; then sPos = true, sTXID = ret0.TXID, sChk = ret0.PostApplyChecksum
+//@   on call DB.PageN assert sPos && !sN && arg0 == db && snapSampleLocks(gs, db) && (dbModeIs(db, DBModeWAL) ? lk == 4 : lk == 3) ; then sN = true, sPageN = ret0
+// --- files are opened and read only under the read locks
+//@   on call OS.Open op "WRITESNAPSHOT:DB" assert sN && lk == 14 && st == 0 && snapReadLocks(gs)
+// (first single call site after the copy loop: the copied index is (part of) the database's index, the page size is the database's)
+//@   on call OS.Open op "WRITESNAPSHOT:DB" assert walFrameOffsets != nil && subIndex(walFrameOffsets, db) && pageSize == db.pageSize
+//@   on call OS.Open op "WRITESNAPSHOT:WAL" assert sN && lk == 14 && st == 0 && snapReadLocks(gs) && len(walFrameOffsets) > 0
+// --- encoder: header carries exactly the sampled values
+//@   on call ltx.NewEncoder assert st == 0 && lk == 14 && arg0 == dst ; then st = 1
+//@   on call ltx.Encoder.EncodeHeader assert st == 1 && arg0 == enc && arg1.Version == 1 && arg1.MinTXID == 1 && arg1.MaxTXID == sTXID && arg1.Commit == sPageN &&
+//@        arg1.PageSize == pageSize && pageSize == db.pageSize && arg1.PreApplyChecksum == 0 && arg1.WALOffset == 0 && arg1.WALSize == 0 &&
+//@        arg1.WALSalt1 == 0 && arg1.WALSalt2 == 0 && arg1.NodeID == db.store.id ; then st = (ret0 == nil ? 2 : st)
+// --- pages: one seek to the sampled WAL frame (+24: frame header) or to (pgno-1)*pageSize of the database file, one full read
+//     of the page buffer from that same file, then exactly that buffer is encoded under that page number
+//@   on call os.File.Seek assert st == 2 && !sought && !readok && arg2 == 0 &&
+//@        (has(walFrameOffsets, pgno) ? arg0 == walFile && arg1 == walFrameOffsets[pgno] + 24 : arg0 == dbFile && arg1 == int64(pgno - 1) * int64(pageSize)) ; then sought = (ret1 == nil), fromWal = has(walFrameOffsets, pgno)
+//@   on call io.ReadFull assert sought && !readok && sameArray(arg1, pageData) && len(arg1) == int(pageSize) && lk == 14 && snapReadLocks(gs) ; then readok = (ret1 == nil), sought = false
+//@   on call io.ReadFull assert typeis(arg0, *os.File) && as(arg0, *os.File) == (fromWal ? walFile : dbFile)
+//@   on call ltx.Encoder.EncodePage assert st == 2 && readok && arg0 == enc && arg1.Pgno == pgno && pgno != ltx.LockPgno(pageSize) && sameArray(arg2, pageData) && len(arg2) == int(pageSize) &&
+//@        (sPageN == 0xffffffff || encoded == encodedBelow(pgno, ltx.LockPgno(pageSize))) ;
+//@        then readok = false, encoded = (ret0 == nil ? encoded + 1 : encoded), acc = (ret0 == nil ? acc ^ ltx.ChecksumPage(arg1.Pgno, arg2) : acc)
+//@   on call io.Writer.Write assert false
+// --- trailer: the checksum is flag | XOR of ChecksumPage over exactly the encoded pages, all pages were encoded, and it is the sampled one
+//@   on call ltx.Encoder.SetPostApplyChecksum assert st == 2 && arg0 == enc && !sought && !readok && arg1 == ltx.ChecksumFlag | acc &&
+//@        enc.prevPgno == lastEncoded(sPageN + 1, ltx.LockPgno(pageSize)) && encoded == encodedBelow(sPageN + 1, ltx.LockPgno(pageSize)) ; then st = 3
+//@   on call ltx.Encoder.SetPostApplyChecksum assert arg1 == sChk
+//@   on call ltx.Encoder.Close assert st == 3 && arg0 == enc ; then st = (ret0 == nil ? 4 : st)
+//@   on call ltx.Encoder.Header assert st == 4 && arg0 == enc
+//@   on call ltx.Encoder.Trailer assert st == 4 && arg0 == enc
+// --- loops
+//@   loop 1 modifies contents(walFrameOffsets)
+//@   loop 1 invariant walFrameOffsets != nil && subIndex(walFrameOffsets, db)
+// the index is copied under the same locks as the position (the loop changes no lock, so this is a statement about the loop entry)
+//@   loop 1 invariant sPos && sN && snapSampleLocks(gs, db) && (dbModeIs(db, DBModeWAL) ? lk == 4 : lk == 3)
+//@   loop 2 modifies class("F|os.File|*"), contents(pageData), enc.prevPgno, enc.pagesWritten, enc.n, sought, fromWal, readok, encoded, acc
+//@   loop 2 invariant st == 2 && lk == 14 && sPos && sN && !sought && !readok && !unlocked && snapReadLocks(gs)
+//@   loop 2 invariant enc != nil && enc.state == "page" && enc.header.PageSize == pageSize && enc.header.Commit == sPageN && enc.header.MaxTXID == sTXID && enc.header.MinTXID == 1
+//@   loop 2 invariant pageN == sPageN && pos.TXID == sTXID && pos.PostApplyChecksum == sChk && pageSize == db.pageSize && pageSize >= 512 && pageSize <= 65536
+//@   loop 2 invariant lockPgno == ltx.LockPgno(pageSize) && len(pageData) == int(pageSize) && walFrameOffsets != nil && ctx != nil
+//@   loop 2 invariant (pgno >= 1 && pgno - 1 <= pageN && enc.prevPgno == lastEncoded(pgno, lockPgno) && encoded == encodedBelow(pgno, lockPgno)) || (pgno == 0 && pageN == 0xffffffff)
+//@   loop 2 invariant chksum == acc
+// --- results (`proves`: about ghosts/locals, not exported to callers; `ensures`: exported)
+//@   proves    unlocked
+//@   proves    err == nil ==> st == 4 && lk == 14 && sPos && sN
+//@   proves    err == nil ==> header.MaxTXID == sTXID && header.Commit == sPageN && trailer.PostApplyChecksum == sChk
+//@   proves    err == nil ==> trailer.PostApplyChecksum == ltx.ChecksumFlag | acc && encoded == encodedBelow(sPageN + 1, ltx.LockPgno(db.pageSize))
+//@   ensures   err == nil ==> header.Version == 1 && header.MinTXID == 1 && header.PreApplyChecksum == 0 && header.PageSize == db.pageSize
+//@   ensures   err == nil ==> header.MaxTXID == posOf(db).TXID && trailer.PostApplyChecksum == posOf(db).PostApplyChecksum && header.Commit == aload(db.pageN)
+//@   ensures   err != nil ==> header.Version == 0 && header.MinTXID == 0 && header.MaxTXID == 0 && header.Commit == 0 && header.PageSize == 0 && trailer.PostApplyChecksum == 0 && trailer.FileChecksum == 0
+//@   ensures   posOf(db) == old(posOf(db)) && aload(db.pageN) == old(aload(db.pageN)) && unchanged(db.pageSize, db.wal.frameOffsets)
+// (the two quantified frame clauses take ~8 s each on the merged exit)
+//@   ensures   forall p uint32 :: has(db.wal.frameOffsets, p) <==> old(has(db.wal.frameOffsets, p))
+//@   ensures   forall p uint32 :: db.wal.frameOffsets[p] == old(db.wal.frameOffsets[p])
+//@   ensures   dbWF(db)
+//@   ensures   locksWF(db)
+// (No `modifies` clause: callers havoc the computed mod-set - lock state, encoder, byte buffers, map[uint32]int64 - and get the
+// `ensures` above back. A class-level frame is not stronger than that, an object-level one is beyond the solvers' budget here.)
+//@   mergeexits
+//@   nopanic
+
+// ===========================================================================
+// db.go — Export (C10). The full contract is in zz_contracts_drop_import_verif.go ([C16,C10]); merged additions:
+
+// In WAL mode nothing but the WAL write lock protects the sampled view (position, page count, WAL page index) against a
+// committing writer, a checkpoint (SQLite's, or LiteFS's own CheckpointNoLock / ApplyLTXNoLock under AcquireWriteLock) and a
+// WAL restart until the READ locks are held: READ0 shared blocks the back-fill of the database file, READ1..4 shared block the
+// WAL restart, WRITE/CKPT/RECOVER/READ0..4 exclusive is what AcquireWriteLock needs. The hand-over must therefore overlap:
+// when WRITE is released the READ locks are already held.
+//@ pred walHandOver(gs *GuardSet) = gsh(addr(gs.read0)) && gsh(addr(gs.read1)) && gsh(addr(gs.read2)) && gsh(addr(gs.read3)) && gsh(addr(gs.read4))
+
+//@ func (db *DB) Export [C10]
+// reading a file moves the offset kept in the *os.File the function opened (engine: io.ReadFull havocs the reader object)
+//@   loop 2 modifies class("F|os.File|*")
+// FINDING F-C10-1 (fails on the unchanged code): WRITE is released BEFORE CKPT/RECOVER/READ0..4 are requested. Between the two
+// Export holds only SHARED (shared), which excludes nobody in WAL mode. Sequence (WAL mode, e.g. on a replica): Export samples
+// pos = P and the WAL index, releases WRITE; the replication stream takes the full write lock (AcquireWriteLock: SHARED shared,
+// all SHM locks exclusive - granted), ApplyLTXNoLock(P+1) rewrites page k of the database file and truncates the WAL, releases;
+// Export now gets its READ locks, reads page k from the database file (k was not in the sampled index) = image of P+1, other
+// pages from stale WAL offsets, and returns pos P with a nil error. Same with a SQLite writer + checkpoint + WAL restart on
+// the primary. Export has no checksum self-check, so the mixture is delivered as a success.
+//@   on call RWMutexGuard.Unlock assert arg0 == addr(gs.write) && dbModeIs(db, DBModeWAL) ==> walHandOver(gs)
+// Machine-checked witness of F-C10-1 (discharged): at the moment WRITE is released none of CKPT, RECOVER, READ0..4 is held by
+// this guard set (the solvers answer `timeout`, not `sat`, on the failing assertion above because of the quantified lock facts;
+// this clause proves its negation on every path that reaches the release).
+//@   on call RWMutexGuard.Unlock assert arg0 == addr(gs.write) ==> gun(addr(gs.ckpt)) && gun(addr(gs.recover)) && gun(addr(gs.read0)) &&
+//@        gun(addr(gs.read1)) && gun(addr(gs.read2)) && gun(addr(gs.read3)) && gun(addr(gs.read4)) && gsh(addr(gs.shared))
